@@ -100,11 +100,40 @@ Fixpoint rep_in_limits (r : re) : bool :=
   | _ => true
   end.
 
-(* depth of group nesting as counted by the regex-syntax parser's nest limit *)
-Fixpoint re_nest (r : re) : N :=
+(* Nesting depth of the regex-syntax AST that the printed pattern parses to, as counted by the
+   parser's nest limit (NestLimiter): bracketed classes, class binary operations and unions,
+   repetition operators, groups, alternations (two or more branches) and concatenations (two or
+   more items; a flag directive and every literal character are items) each add one level.
+   [re_views r] = ((items, max item depth) of r seen as a sequence,
+                   (branches, max branch depth) of r seen as an alternation). *)
+Definition seq_depth_of (v : N * N) : N := let '(n, d) := v in if 2 <=? n then 1 + d else d.
+
+Fixpoint re_views (r : re) : (N * N) * (N * N) :=
   match r with
-  | RCat a b | RAlt a b => N.max (re_nest a) (re_nest b)
-  | ROpt a | RStar _ a | RRep a _ _ => 1 + re_nest a
-  | RGroup _ a => 1 + re_nest a
-  | _ => 0
+  | RAlt a b =>
+      let '(na, da) := snd (re_views a) in
+      let '(nb, db) := snd (re_views b) in
+      let av := (na + nb, N.max da db) in
+      ((1, seq_depth_of av), av)
+  | _ =>
+      let sv :=
+        match r with
+        | RCat a b =>
+            let '(na, da) := fst (re_views a) in
+            let '(nb, db) := fst (re_views b) in
+            (na + nb, N.max da db)
+        | REmpty => (0, 0)
+        | RLit _ s => (1 + N.of_nat (length s), 0)
+        | RSep | RNsep => (1, 1)
+        | RNever => (1, 2)
+        | RClass neg _ => (1, if neg then 3 else 4)
+        | RDotStar => (1, 2)
+        | ROpt a | RStar _ a | RRep a _ _ => (1, 1 + seq_depth_of (fst (re_views a)))
+        | RGroup _ a => (1, 1 + seq_depth_of (snd (re_views a)))
+        | RAlt _ _ => (1, 0)
+        end in
+      (sv, (1, seq_depth_of sv))
   end.
+
+(* the depth of the complete program `^ r $` (always a concatenation) *)
+Definition re_nest (r : re) : N := 1 + snd (fst (re_views r)).
